@@ -38,17 +38,19 @@ type Request struct {
 
 // Obs is the observed behaviour of one step.
 type Obs struct {
-	Step    string   `json:"step"`            // "set|<file>", "msg|<full>", "client|<full>", "codec|<full>", "hist", ...
-	Class   string   `json:"class"`           // ok | err | panic | fatal | timeout | nilnil
-	Msg     string   `json:"msg,omitempty"`   // error / panic text
-	Site    string   `json:"site,omitempty"`  // first pentops/j5 frame of a panic
-	Term    string   `json:"term,omitempty"`  // Coq term of the result
-	Sub     []string `json:"sub,omitempty"`   // sub-classes (codec: encE decE encP decP; hist: per message)
-	SubMsg  []string `json:"submsg,omitempty"`
-	Viol    []string `json:"viol,omitempty"`  // property clauses found violated by the worker-side oracle
-	Names   []string `json:"names,omitempty"` // hist: message order
-	Extra   string   `json:"extra,omitempty"`
-	Count   int      `json:"count,omitempty"` // export: number of schemas in the API
+	Step     string     `json:"step"`           // "set|<file>", "msg|<full>", "client|<full>", "codec|<full>", "hist", ...
+	Class    string     `json:"class"`          // ok | err | panic | fatal | timeout | nilnil
+	Msg      string     `json:"msg,omitempty"`  // error / panic text
+	Site     string     `json:"site,omitempty"` // first pentops/j5 frame of a panic
+	Term     string     `json:"term,omitempty"` // Coq term of the result
+	Sub      []string   `json:"sub,omitempty"`  // sub-classes (codec: encE decE encP decP; hist: per message)
+	SubMsg   []string   `json:"submsg,omitempty"`
+	Viol     []string   `json:"viol,omitempty"`     // property clauses found violated by the worker-side oracle
+	ViolKeys [][]string `json:"violkeys,omitempty"` // per violation: the schema names (package/name) it involves
+	ViolKind []string   `json:"violkind,omitempty"` // per violation: for a duplicate name, its cause (c18work.go dup*)
+	Names    []string   `json:"names,omitempty"`    // hist: message order
+	Extra    string     `json:"extra,omitempty"`
+	Count    int        `json:"count,omitempty"` // export: number of schemas in the API
 }
 
 func (r *Request) dead(step string) bool {
